@@ -115,6 +115,11 @@ def templates(tier, mode):
     # first failing entry decides the error
     out.append(('map-order', T('{ a = x : a , a = y : a }'), {'x': spec(['num'], (0,)), 'y': spec(['num', 'bool'], (0,))}))
     out.append(('map-order-err', T('{ 1 : 1 + x , y / 0 : 2 }'), {'x': spec(['num', 'str'], (0,), strshapes=[(1,)]), 'y': spec(['num', 'bool'], (0,))}))
+    # a negated operand of a comparison (the negation of zero is a negative zero in rust_decimal: it still equals zero)
+    out.append(('neg-cmp<', T('- x < y'), {'x': spec(['num'], (0, 1)), 'y': spec(['num'], (0,))}))
+    out.append(('neg-cmp>=', T('x >= - y'), {'x': spec(['num'], (0,)), 'y': spec(['num'], (0, 2))}))
+    out.append(('neg-cmp<=', T('- x <= - y'), {'x': spec(['num'], (0,)), 'y': spec(['num'], (0,))}))
+    out.append(('neg-eq', T('- x == y'), {'x': spec(['num'], (0, 1)), 'y': spec(['num'], (0,))}))
     # an element / entry / argument / statement that fails: the whole expression fails, nothing is dropped
     out.append(('list-elem-err', T('[ 1 , x / y , 3 ]'), {'x': spec(['num', 'str'], (0,), strshapes=[(1,)]), 'y': spec(['num'], (0,))}))
     out.append(('list-elem-err-in', T('7 in [ x << y , 7 ]'), {'x': spec(['i64'], (0,)), 'y': spec(['i64'], (0,))}))
